@@ -16,7 +16,7 @@
     an abstract [idx_spec] hypothesis are kept as ..._under_idx_spec. *)
 From Coq Require Import ZArith Bool String List Reals.
 From Flocq Require Import Core BinarySingleNaN.
-Require NixV.Gen.GenAccess NixV.Access.AccessBridgeModels NixV.Gen.GenView NixV.Gen.GenNDSize NixV.Access.ViewBridge.
+Require NixV.Gen.GenAccess NixV.Access.AccessBridgeModels NixV.Gen.GenView NixV.Gen.GenNDSize NixV.Access.ViewBridge NixV.Gen.GenPairs NixV.Axis.PairBridge NixV.Access.SlicePairBridge.
 Require Import NixV.Base.Prelude NixV.Base.F64 NixV.Base.F64Facts NixV.Gen.GenDimensions NixV.Axis.AxisSpec
                NixV.Axis.RangeModel NixV.Axis.SampledProofs NixV.Data.NDIndex NixV.Data.NDArr
                NixV.Access.SliceSwitches NixV.Access.View NixV.Access.Slice NixV.Access.SliceSpec
@@ -483,6 +483,18 @@ Print Assumptions C17_transform_coordinates_is_generated.
 Theorem C17_ndsize_gt_is_generated : forall a b, (List.length a < 200)%nat -> NixV.Gen.GenNDSize.nd_gt a b = View.nd_gt a b.
 Proof. exact NixV.Access.ViewBridge.nd_gt_generated. Qed.
 Print Assumptions C17_ndsize_gt_is_generated.
+
+(** * The start/end pair conversion of every descriptor kind is the code regenerated from src/Dimensions.cpp on this run *)
+Theorem C17_pair_conversion_is_generated : forall d s e rm,
+  Slice.dim_pair d s e rm =
+  match d with
+  | Slice.DSampled dt off _ => NixV.Gen.GenPairs.sampled_pair s e dt (Slice.off_or0 off) rm
+  | Slice.DRange ticks _ => NixV.Axis.PairBridge.pair_rule (fun p r => NixV.Axis.RangeModel.getIndex p ticks r) true rm s e
+  | Slice.DSet labels => NixV.Axis.PairBridge.pair_rule (fun p r => getSetIndex p labels r) false rm s e
+  | Slice.DFrame rows => NixV.Gen.GenPairs.df_pair s e rows rm
+  end.
+Proof. exact NixV.Access.SlicePairBridge.slice_pair_is_generated. Qed.
+Print Assumptions C17_pair_conversion_is_generated.
 
 (** * The library under test has the repaired behaviour (the patches landed as 08a7783, 956fa36, cf8bb07); this
     theorem breaks if the model driver is switched back to a defective behaviour *)
